@@ -36,6 +36,9 @@
   re-allocation of at most twice the need) + the compressed bytes + 256 KiB:
     c04lzfx   <step> <outlen> <hexin> <measured>                      →  ok <len> | err ,  within | EXCEEDS:<bound>
     c04lzfseg <step> <outlen> <hex>*<count>,<hex>*<count>,… <measured>     (input = the segments, each repeated)
+  session 5 - an observed trace of the real replay followed by the event system (see `follow` below):
+    c04trace n= c0=<cap+1> cw=<cap+1> routes= trace=<w<i>:<e>|f<i>:<e>|x>,…   →  res= cp= applied=<count per entry> trace=ok|diverged@k
+    c04fan / c04fang … mult=1   →  res= cp= twice=<0|1> once=<0|1|->     (once only for res=ok)
   the fan-out with the cluster-only global lane (Model/RdbFanoutG.withGlobal), glob = 0|1 per entry:
     c04fang n=<keyed workers> c0= cw= routes= glob=<g,g,…> term= scen=    →  res= cp=
 -/
@@ -119,7 +122,86 @@ def fan (global : Bool) (toks : List String) : Option String := do
     | _ => none
   let res := match sEnd.ret with
     | some .ok => "ok" | some .err => "err" | none => "none"
-  pure s!"res={res} cp={if sEnd.checkpoint then 1 else 0}"
+  -- session 5: `mult=1` in the op asks for the multiplicity of the applied entries too:
+  --   twice = some entry applied more than once; once = every entry applied exactly once
+  let m := routes.length
+  let twice := (List.range m).any (fun e => sEnd.applied.count e > 1)
+  let once := (List.range m).all (fun e => sEnd.applied.count e == 1)
+  let onceS := if res == "ok" then (if once then "1" else "0") else "-"
+  let extra := if (kv toks "mult") == some "1" then s!" twice={if twice then 1 else 0} once={onceS}" else ""
+  pure (s!"res={res} cp={if sEnd.checkpoint then 1 else 0}" ++ extra)
+
+/-! ### session 5: following an OBSERVED trace of the real replay (op c04trace)
+
+  The harness gates every replay worker of the real `sendRdb` at the first request of each entry, lets everything else
+  run to quiescence (synctest.Wait) and then takes ONE decision: release worker i (it applies the entry it holds:
+  `w<i>:<entry>`), answer the held request with an error (`f<i>:<entry>`), or cancel the parent context (`x`). The list
+  of decisions it took — an enumerated schedule — is the trace. The model follows it: before `w i:e` / `f i:e` the
+  parser and the distributor run (parse, dist) until `e` is the head of worker i's pipe — if that is impossible the
+  real run did something the event system cannot do (`trace=diverged@k`). After the trace everything except `work`
+  runs to the end (the real `sendRdb` has returned). Compared: result, checkpoint, and HOW OFTEN each entry was
+  applied (the double counts the requests per key against an undisturbed run).
+  Capacities: a real worker / the distributor holds one entry in its hand besides the channel, the model keeps a held
+  entry at the head of the pipe — the op carries capacity + 1. -/
+
+open RdbFanout in
+def advanceTo (c : Cfg Nat) (i e : Nat) : Nat → St Nat → Option (St Nat)
+  | 0, _ => none
+  | k+1, s =>
+    match s.pipes i with
+    | a :: _ => if a == e then some s else none
+    | [] => advanceTo c i e k (step c (step c s Ev.parse) Ev.dist)
+
+open RdbFanout in
+def closing (c : Cfg Nat) : Nat → St Nat → St Nat
+  | 0, s => s
+  | r+1, s =>
+    let ws := List.range c.n
+    let evs := [Ev.parse, Ev.dist, Ev.distCancel] ++ ws.map Ev.workCancel ++ ws.map Ev.workClosed ++
+      [Ev.collectD] ++ ws.map Ev.collectW ++ [Ev.finish true]
+    closing c r (evs.foldl (step c) s)
+
+open RdbFanout in
+/-- `some (state, none)`: followed; `some (state, some k)`: diverged at trace event k -/
+def follow (c : Cfg Nat) (budget : Nat) : List String → Nat → St Nat → Option (St Nat × Option Nat)
+  | [], _, s => some (s, none)
+  | t :: rest, k, s =>
+    if t == "x" then follow c budget rest (k+1) (step c s Ev.cancel)
+    else
+      match ((t.drop 1).toString.splitOn ":").map String.toNat? with
+      | [some i, some e] =>
+        match advanceTo c i e budget s with
+        | none => some (s, some k)
+        | some s1 =>
+          if t.startsWith "w" then follow c budget rest (k+1) (step c s1 (Ev.work i))
+          else if t.startsWith "f" then follow c budget rest (k+1) (step c (step c s1 (Ev.workFail i)) (Ev.collectW i))
+          else none
+      | _ => none
+
+open RdbFanout in
+def traceOp (toks : List String) : Option String := do
+  let n ← (← kv toks "n").toNat?
+  let c0 ← (← kv toks "c0").toNat?
+  let cw ← (← kv toks "cw").toNat?
+  let routes ← natList? (← kv toks "routes")
+  let tr ← kv toks "trace"
+  let evs := if tr == "." then [] else tr.splitOn ","
+  let c0' : Cfg Nat := { n := n, cap0 := c0, capW := cw, route := fun a => routes.getD a 0 }
+  -- `glob=` present: cluster bidirectional replay, the global lane is worker n (Model/RdbFanoutG.withGlobal)
+  let c : Cfg Nat := match kv toks "glob" with
+    | some g => match natList? g with
+      | some globs => withGlobal c0' (fun a => globs.getD a 0 == 1)
+      | none => c0'
+    | none => c0'
+  let items : List (Item Nat) := (List.range routes.length).map Item.entry ++ [Item.term .done]
+  let budget := 2 * routes.length + 8
+  let (s1, dv) ← follow c budget evs 0 (init items)
+  let sEnd := closing c (2 * routes.length + 8) s1
+  let res := match sEnd.ret with
+    | some .ok => "ok" | some .err => "err" | none => "none"
+  let counts := (List.range routes.length).map (fun e => toString (sEnd.applied.count e))
+  let tv := match dv with | none => "ok" | some k => s!"diverged@{k}"
+  pure s!"res={res} cp={if sEnd.checkpoint then 1 else 0} applied={",".intercalate counts} trace={tv}"
 
 /-- bytes that can occur in a text strconv.ParseFloat accepts (decimal and hexadecimal floats, inf / infinity / nan) -/
 def floatAlphabet (b : UInt8) : Bool :=
@@ -193,6 +275,7 @@ def handle : List String → Option (List String)
     | _, _, _ => some ["bad-op"]
   | "c04fan" :: toks => some [(fan false toks).getD "bad-op"]
   | "c04fang" :: toks => some [(fan true toks).getD "bad-op"]
+  | "c04trace" :: toks => some [(traceOp toks).getD "bad-op"]
   -- c04chan <maxver> <hexfile>: the whole channel transcript of the parser goroutine: <entries>:<E|D>,…  or u
   | ["c04chan", mv, h] =>
     match mv.toNat?, Hex.decode h with
